@@ -11,7 +11,8 @@ Open Scope Z_scope.
    is ONE transaction writing the finished and the staged bucket; storeDKGOutput saves the group
    file, then the share file; Reset removes the share, then the group; executeAndFinishDKG commits
    the database before handing the result over; a beacon Put is one transaction with one Put;
-   key.Save truncates and rewrites the target file in place. *)
+   key.Save truncates and rewrites the target file in place; callbackStore.Put writes through the
+   underlying store first (an error returns at once) and only then hands the beacon to the callbacks. *)
 Theorem C13_shape_obligation : crash_shape = expected_shape.
 Proof. reflexivity. Qed.
 Print Assumptions C13_shape_obligation.
@@ -46,6 +47,33 @@ Theorem C13_chain_linked : forall s bs k,
   linked (chain (crash (CAfter k) (lifetime_ops true (chain s) bs) s)) = true.
 Proof. exact chain_crash_linked. Qed.
 Print Assumptions C13_chain_linked.
+
+(* "containing every beacon it had already served": beacons leave the node through the callbacks
+   of the callback store (PublicRandStream, SyncChain, the node's own hooks). For every chain
+   database a lifetime starts from, every list of Puts offered to the store stack and every crash
+   point k between the visible events (committed write / hand-over to the callbacks): every beacon
+   already handed to a callback is in the database the restart finds - stated over the order of
+   callbackStore.Put read from the source *)
+Theorem C13_served_persisted : forall chained c0 last bs k,
+  served_persisted c0
+    (firstn k (cb_attempts (sh_cb_write_first crash_shape) chained last bs)) = true.
+Proof. rewrite C13_shape_obligation. exact served_persisted_write_first. Qed.
+Print Assumptions C13_served_persisted.
+
+(* and those writes are exactly the transactions C13_chain speaks about *)
+Theorem C13_served_writes_are_chain_txs : forall chained bs last,
+  written (cb_attempts (sh_cb_write_first crash_shape) chained last bs) =
+  beacons_of (attempt_ops chained last bs).
+Proof. rewrite C13_shape_obligation. exact cb_written_is_attempt_ops. Qed.
+Print Assumptions C13_served_writes_are_chain_txs.
+
+(* the obligation is not idle: with the dispatch first, a crash between the hand-over and the
+   commit leaves a served beacon that no restart finds *)
+Example C13_dispatch_first_loses_served_beacon :
+  served_persisted [mkB 0 0 0] (firstn 1 (cb_attempts false true (mkB 0 0 0) [mkB 1 11 0])) = false /\
+  served_persisted [mkB 0 0 0] (firstn 2 (cb_attempts true true (mkB 0 0 0) [mkB 1 11 0])) = true /\
+  served (firstn 2 (cb_attempts true true (mkB 0 0 0) [mkB 1 11 0])) = [mkB 1 11 0].
+Proof. vm_compute. repeat split; reflexivity. Qed.
 
 (* ---------------- DKG database ---------------- *)
 
